@@ -20,7 +20,7 @@ class C02(C01):
         quick = tier == "quick"
         for (ci, (retries, tmo_s, n, opts)) in enumerate(itertools.product((0, 1, 2), (1, 2), (0, 512, 1100),
                                                                          ((), (("timeout", None),)))):
-            fa = [(0, 1, 2), (0, 1, 4), (0, 2, 4)][ci % 3]      # two of the foreign address kinds per configuration
+            fa = [(0, 1, 2), (0, 5, 4), (0, 2, 6), (0, 1, 5)][ci % 4]      # two of the foreign address kinds per configuration
             if quick and retries == 0 and n == 1100:
                 continue
             tm = tmo_s * T.TICKS
@@ -54,7 +54,7 @@ class C02(C01):
             ev = []
             for _k in range(rng.randrange(0, 12)):
                 t += rng.choice(T.time_steps(tm) + [0, 0, 3])
-                ev.append((t, 0 if rng.random() < 0.8 else rng.choice([1, 2, 3, 4]), rng.choice(T.PACKET_ALPHABET)[1]))
+                ev.append((t, 0 if rng.random() < 0.8 else rng.choice([1, 2, 3, 4, 5, 6]), rng.choice(T.PACKET_ALPHABET)[1]))
             yield T.mk_case(bytes(i % 251 for i in range(n)), [], options=options, default_tmo=dflt,
                             retries=retries, events=ev)
         # handling time: taking a datagram off the socket costs `proc` ticks, so a queue of ignored datagrams
@@ -80,7 +80,7 @@ class C02(C01):
             ev = []
             for _k in range(rng.randrange(0, 10)):
                 t += rng.choice([0, 0, 0, 1, proc, tm // 2, tm - 1, tm])
-                ev.append((t, 0 if rng.random() < 0.7 else rng.choice([1, 2, 3, 4]), rng.choice(T.PACKET_ALPHABET)[1]))
+                ev.append((t, 0 if rng.random() < 0.7 else rng.choice([1, 2, 3, 4, 5, 6]), rng.choice(T.PACKET_ALPHABET)[1]))
             yield T.mk_case(bytes(i % 251 for i in range(rng.choice([0, 512, 700]))), [], options=options,
                             default_tmo=tmo_s if not options else rng.choice([1, 2]), retries=retries, events=ev, proc=proc)
         for _ in range(200 if quick else 3000):
